@@ -73,6 +73,7 @@ func c26(c *an.Check) {
 	}
 	c.Sites(n)
 	c.Require(ok && n == 2, "CALLARG", "webrtc link handshakes require the signaled peer (never the empty id)", nil, "", n, "DialSession/ListenSession(..., s.peerID)", why)
+	expectedPeerForwarding(c)
 	c.Who(an.WhoSpec{Construct: "webrtc sessionTracker.peerID is set only at construction", Field: trkPeerF, Kinds: []an.AccessKind{an.Write}, Allowed: an.InFuncs(nst), Min: 1, Funcs: p.PkgFuncs(wrPkg)})
 	if nst != nil && trkPeerF != nil {
 		okP := false
@@ -177,4 +178,65 @@ func init() {
 		Explain:     "Decides on SSA: (ROLE) the offerer predicate returns strings.Compare(a,b) strictly-ordered against 0 with (a,b) in argument order, is called once with (local id string, remote key), and its verdict is stored only at tracker construction; (CALLARG) both QUIC handshakes over the data channel pass the tracker's peer id (parsed from the tracker's key, written only at construction) as the required remote peer; (MIRROR) EncodeWebRtcSignal encrypts MarshalVT(signal) to the destination key and DecodeWebRtcSignal unmarshals the decryption, under the same init-only context variable; the handler passes a decoded signal on only past decode ok and Validate ok; the dispatcher's type switch equals Validate's; (PANIC) signal.go codec functions have no undischarged panic site. Inherits C12 for the cipher.",
 		NotCov:      "confidentiality as such, pion's SDP/ICE parsers, and acceptance of the QUIC link (C03).",
 		Assumptions: commonAssumptions})
+}
+
+
+// expectedPeerForwarding: the quic session helpers hand the caller's expected-peer argument, unchanged, down to
+// p2ptls.Identity.ConfigForPeer — the only place where the remote identity is pinned (shared by C26 and C03).
+func expectedPeerForwarding(c *an.Check) {
+	p := c.P
+	const q = "transport/common/quic"
+	peerParam := func(f *ssa.Function) int {
+		for i, prm := range f.Params {
+			if isPeerIDValue(prm) {
+				return i
+			}
+		}
+		return -1
+	}
+	cfp := an.R("crypto/tls", "Identity", "ConfigForPeer")
+	n, bad := 0, ""
+	for _, name := range []string{"DialSession", "DialSessionViaTransport", "ListenSession", "BuildIncomingTlsConf"} {
+		f := p.Func(q, "", name)
+		if f == nil {
+			bad = "unresolved anchor: " + name
+			continue
+		}
+		pi := peerParam(f)
+		if pi < 0 {
+			bad = name + " has no expected-peer parameter"
+			continue
+		}
+		found := false
+		for _, g := range an.WithClosures(f) {
+			for _, call := range an.Calls(g, cfp, an.R(q, "", "BuildIncomingTlsConf")) {
+				found = true
+				n++
+				args := an.CallArgs(call.Common())
+				arg := args[len(args)-1]
+				okArg := an.IsParam(arg, pi) && arg.Parent() == f
+				if !okArg {
+					if fvv, isFV := arg.(*ssa.FreeVar); isFV {
+						if b := p.Binding(fvv); b != nil && an.IsParam(b, pi) {
+							okArg = true
+						}
+					}
+					if u, isLoad := arg.(*ssa.UnOp); isLoad {
+						if cell := p.CellOf(u.X); cell != nil {
+							if sv := p.SingleStore(cell); sv != nil && an.IsParam(sv, pi) {
+								okArg = true
+							}
+						}
+					}
+				}
+				if !okArg {
+					bad = fmt.Sprintf("%s does not pass its expected-peer parameter on to %s at %s: the remote identity is not pinned although the caller asked for a specific peer", name, an.FuncName(call.Call.StaticCallee()), p.Pos(call.Pos()))
+				}
+			}
+		}
+		if !found {
+			bad = name + " never builds a TLS configuration for the expected peer"
+		}
+	}
+	c.Require(bad == "" && n >= 4, "CALLARG", "quic session helpers forward the expected remote peer to the TLS identity check", nil, "", n, "DialSession*/ListenSession/BuildIncomingTlsConf → ConfigForPeer(expected peer)", bad)
 }
